@@ -557,6 +557,15 @@ _ANSI = re.compile(r"\x1b\[[0-9;]*[A-Za-z]")
 _LOG = re.compile(r"^\[(INFO|WARN|DEBUG|TRACE|ERROR)\s*\]\s+(.*)$")
 
 
+def private_binary(path, scratch):
+    """Copy the freshly built CLI into `scratch` and return the copy.  The shared target dir may be
+    rebuilt by a concurrent check while a run is in progress; veryl folds a hash of its own
+    executable into the cache key, so a history must see ONE binary from start to end."""
+    dst = os.path.join(scratch, os.path.basename(path))
+    shutil.copy2(path, dst)
+    return dst
+
+
 class RunResult:
     def __init__(self, rc, stdout, stderr, root):
         self.rc = rc
